@@ -20,6 +20,7 @@ def _snap(E, h):
     if h.ndim == 1:
         d["axis_names"] = [h.axis_name]
         d["bins"] = [d["bins"]]
+        d["edges"], d["geom"] = [d["edges"]], "nd"
     return d
 
 
@@ -32,7 +33,8 @@ def _mk(E, p, x):
     dt = p.get("dtype") or (int if p["kind"] == "int" else float)
     f = np.asarray(nested(x["f"], shape), dtype=dt)
     e2 = np.asarray(nested(x["q"], shape), dtype=dt)
-    return cls([np.asarray(x["e"][k]) for k in range(D)], f, errors2=e2, axis_names=NAMES[:D], name="parent")
+    kw = {"missed": x["m"]} if "m" in x else {}
+    return cls([np.asarray(x["e"][k]) for k in range(D)], f, errors2=e2, axis_names=NAMES[:D], name="parent", **kw)
 
 
 @register
@@ -160,8 +162,11 @@ class C09Misc(Harness):
 
     def declare(self, cx, p):
         shape = p["shape"]
-        return {"f": declare_cells(cx, "f", shape, p["kind"]), "q": declare_cells(cx, "q", shape, p["kind"]),
-                "e": [declare_edges(cx, f"e{k}_", shape[k]) for k in range(len(shape))]}
+        x = {"f": declare_cells(cx, "f", shape, p["kind"]), "q": declare_cells(cx, "q", shape, p["kind"]),
+             "e": [declare_edges(cx, f"e{k}_", shape[k]) for k in range(len(shape))]}
+        if p["op"] == "T":
+            x["m"] = cx.int("m", 0, 1000)
+        return x
 
     def drive(self, E, p, x):
         h = _mk(E, p, x)
@@ -193,6 +198,8 @@ class C09Misc(Harness):
             yield "TT_contents", z3.And([cx.eq(tt["freq"][i][j], f[(i, j)]) for (i, j) in idxs] + [cx.eq(tt["err2"][i][j], q[(i, j)]) for (i, j) in idxs])
             yield "TT_names", tt["axis_names"] == NAMES[:2] and tt["shape"] == shape
             yield "TT_eq", obs["TT_eq"] is True
+            yield "T_keeps_missed", z3.And(cx.eq(t["missed"], cx.t(x["m"])), cx.eq(tt["missed"], cx.t(x["m"])), cx.eq(obs["parent"]["missed"], cx.t(x["m"])))
+            yield "T_meta", t["name"] == "parent" == tt["name"] and t["dtype"] == obs["parent"]["dtype"] == tt["dtype"]
             yield "parent_unchanged", z3.And([cx.eq(getcell(obs["parent"]["freq"], idx), f[idx]) for idx in idxs])
             return
         if p["op"] == "acc":
